@@ -816,9 +816,20 @@ func (g *gen) genSeq(n int) {
 		var lens []string
 		for i := 0; i < k; i++ {
 			var fr []byte
+			big := false
 			switch g.r.Intn(8) {
 			case 0:
 				fr = g.badContentFrame()
+			case 4:
+				if g.chance(0.16) {
+					// a body beyond 64 KiB (chunked or pooled reads show there), followed by whatever comes next
+					sz := []int{65531, 65536, 65537, 70000, 131072, 131073, 140001}[g.r.Intn(7)]
+					body := append([]byte{0, 1, 't', 0}, g.bytesN(sz-4)...)
+					fr = reframe(0x30, body)
+					big = true
+				} else {
+					fr = g.specFrame(g.anyKind()).frame()
+				}
 			case 1:
 				fr = []byte{[]byte{0xc0, 0xd0, 0xe0, 0xf0, 0x00, 0x30}[g.r.Intn(6)], 0}
 			case 2, 3:
@@ -828,7 +839,7 @@ func (g *gen) genSeq(n int) {
 				f := g.specFrame(g.anyKind())
 				fr = f.frame()
 			}
-			if len(fr) > 3000 {
+			if len(fr) > 3000 && !big {
 				i--
 				continue
 			}
@@ -1047,6 +1058,11 @@ func (g *gen) genPool(n int) {
 						g.emit("NEW %s %s", slot, kinds[i])
 					}
 					body = f.body
+					// a subscription identifier where the packet has none to receive it: accepted and dropped
+					// (it must not land in some other packet either)
+					if sb := g.strayBody(kinds[i]); sb != nil && g.chance(0.2) {
+						body = sb
+					}
 				}
 				if len(body) > 2000 {
 					continue
@@ -1071,6 +1087,30 @@ func (g *gen) genPool(n int) {
 			}
 		}
 	}
+}
+
+// a short valid-looking body of the kind whose property section carries a stray Subscription Identifier (0x0b)
+func (g *gen) strayBody(kind string) []byte {
+	id := vbEncode(uint64(1 + g.r.Intn(300)))
+	prop := append([]byte{0x0b}, id...)
+	if g.chance(0.3) {
+		prop = append(prop, append([]byte{0x0b}, vbEncode(uint64(1+g.r.Intn(300)))...)...)
+	}
+	sect := append([]byte{byte(len(prop))}, prop...)
+	pid := []byte{byte(g.r.Intn(256)), byte(1 + g.r.Intn(255))}
+	switch kind {
+	case "PubAck", "PubRec", "PubRel", "PubComp":
+		return append(append(pid, 0), sect...)
+	case "Disconnect", "Auth":
+		return append([]byte{0}, sect...)
+	case "ConnAck":
+		return append([]byte{0, 0}, sect...)
+	case "SubAck", "UnsubAck":
+		return append(append(pid, sect...), 0)
+	case "Unsubscribe":
+		return append(append(pid, sect...), 0, 1, 'a')
+	}
+	return nil
 }
 
 func (g *gen) genCred(n int) {
